@@ -22,6 +22,7 @@ from decimal import Decimal
 from itertools import product
 from typing import Any, cast, Optional, NoReturn
 from urllib.request import urlopen
+from http.client import HTTPException
 from urllib.parse import urlsplit
 
 import elementpath.aliases as ta
@@ -694,7 +695,7 @@ def evaluate__parse_json_functions(self: XPathFunction, context: ta.ContextType 
             else:
                 with pathlib.Path(href).open() as fp:
                     json_text = fp.read()
-        except IOError:
+        except (IOError, HTTPException):
             raise self.error('FOUT1170') from None
 
     else:
